@@ -292,6 +292,11 @@ fn frame_matrix(e: &Env, tier: Tier, a: &mut Acc) {
                 continue;
             }
             let mut s0 = e.s.clone();
+            // a day has passed since anybody touched the banks: an instruction that moves a bank's interest clock
+            // without accruing (or accrues on the quiet) leaves a trace outside every administrative remit
+            s0.advance(86_400);
+            refresh_oracles(&mut s0, &e.w);
+            refresh_oracles(&mut s0, &e.f);
             if fixed_oracle {
                 let r = process_tx(&mut s0, &Tx::one(ix::set_fixed_oracle_price(e.w.group, e.w.roles.admin, e.w.banks[bank_idx].key, I80F48::from_num(3).into()), &[e.w.roles.admin]));
                 if !r.ok() {
